@@ -166,3 +166,82 @@ func specVbValue(b0, b1, b2, b3 byte) uint {
 // lemmaVbRoundTrip: decoding the minimal encoding of v gives v back and
 // consumes exactly the bytes written (proved from the contract below).
 func lemmaVbRoundTrip(v uint) bool { return true }
+
+// ---- packet type dispatch (MQTT 2.1.2) ----
+
+// specPacketKind is the control packet type number of a decoded packet, 0
+// for Undefined, -1 for anything else.
+func specPacketKind(p ControlPacket) int {
+	switch p.(type) {
+	case *Undefined:
+		return 0
+	case *Connect:
+		return 1
+	case *ConnAck:
+		return 2
+	case *Publish:
+		return 3
+	case *PubAck:
+		return 4
+	case *PubRec:
+		return 5
+	case *PubRel:
+		return 6
+	case *PubComp:
+		return 7
+	case *Subscribe:
+		return 8
+	case *SubAck:
+		return 9
+	case *Unsubscribe:
+		return 10
+	case *UnsubAck:
+		return 11
+	case *PingReq:
+		return 12
+	case *PingResp:
+		return 13
+	case *Disconnect:
+		return 14
+	case *Auth:
+		return 15
+	}
+	return -1
+}
+
+// specFixedOf is the stored first header byte of a packet of type 1..15.
+func specFixedOf(p ControlPacket) bits {
+	switch p := p.(type) {
+	case *Connect:
+		return p.fixed
+	case *ConnAck:
+		return p.fixed
+	case *Publish:
+		return p.fixed
+	case *PubAck:
+		return p.fixed
+	case *PubRec:
+		return p.fixed
+	case *PubRel:
+		return p.fixed
+	case *PubComp:
+		return p.fixed
+	case *Subscribe:
+		return p.fixed
+	case *SubAck:
+		return p.fixed
+	case *Unsubscribe:
+		return p.fixed
+	case *UnsubAck:
+		return p.fixed
+	case *PingReq:
+		return p.fixed
+	case *PingResp:
+		return p.fixed
+	case *Disconnect:
+		return p.fixed
+	case *Auth:
+		return p.fixed
+	}
+	return 0
+}
